@@ -161,6 +161,12 @@ def gen_loads_for_bar(rng, bid, nmax=6, allow_mz_dist=True, nodal_only=False):
                 continue
             if rng.random() < 0.5:
                 t = tricky_t(rng)
+                if ts and rng.random() < 0.25:
+                    # a twin: within 1e-10 of a position already used (the code identifies them)
+                    t = min(max(rng.choice(ts) + rng.choice([1, -1]) * Fr("5e-11"), Fr(0)), Fr(1))
+                elif rng.random() < 0.12:
+                    # within 1e-10 of a bar end without being the end
+                    t = rng.choice([Fr("5e-11"), 1 - Fr("5e-11"), Fr("3e-12"), 1 - Fr("1e-12")])
                 ts.append(t)
                 loads.append({"kind": "c", "term": term, "local": local, "bar": bid, "t": t, "v": val})
             else:
